@@ -49,7 +49,7 @@ def run(tier, seed):
             scripts.append(daemon.table_script(rnd)); continue
         if k % 8 == 7:
             # long histories of few users in which every other request is a listing, the checkpoint timer in between
-            scripts.append(daemon.map_script(rnd, pool, peers=rnd.choice([(1000, 1001), (1000, 1001, 1002), (1000, 2001, 2002, 2035)]), nreq=rnd.choice([25, 40, 60]), listy=True))
+            scripts.append(daemon.map_script(rnd, pool, peers=rnd.choice([(1000, 1001), (1000, 2063), (2000, 2063), (1000, 2001, 2002, 2035), (1001, 2047, 2048)]), nreq=rnd.choice([25, 40, 60]), listy=True))     # user ids of different magnitudes: the daemon keeps its set of users with unsaved changes in a bitwise trie
             continue
         scripts.append(daemon.map_script(rnd, pool, peers=peers, nreq=rnd.choice([3, 5, 8, 14])))
     for t, blk in blocked:
